@@ -163,7 +163,7 @@ def _contains_yield(node):
 
 
 def is_repo_function(fn):
-    return isinstance(fn, types.FunctionType) and (fn.__module__ or "").startswith("tpmstream")
+    return isinstance(fn, types.FunctionType) and (fn.__module__ or "").startswith("tpmstream") and fn.__code__.co_filename != "<string>"
 
 
 def is_generated_dataclass_method(fn):
@@ -367,7 +367,7 @@ class Interp:
         if m is not None and (symbolic_args or self.models.always(fn)):
             return (yield from m(self, args, kwargs))
         if isinstance(fn, types.FunctionType):
-            if is_repo_function(fn):
+            if is_repo_function(fn) and not is_generated_dataclass_method(fn):
                 is_gen = bool(fn.__code__.co_flags & inspect.CO_GENERATOR)
                 if is_gen or symbolic_args or self.models.force_interpret(fn):
                     return (yield from self.call_repo_function(fn, args, kwargs, self._defcls_of(fn, args)))
@@ -996,6 +996,10 @@ class Interp:
         # data model dispatch: a.__op__(b), then b.__rop__(a)
         ma = _type_lookup(a, f"__{name}__") if not isinstance(a, Sym) else None
         mb = _type_lookup(b, f"__r{name}__") if not isinstance(b, Sym) else None
+        if type(a) in _BUILTIN_SCALARS and not isinstance(b, Sym) and type(b) not in _BUILTIN_SCALARS:
+            ma = None
+        if type(b) in _BUILTIN_SCALARS and not isinstance(a, Sym) and type(a) not in _BUILTIN_SCALARS:
+            mb = None
         if ma is not None:
             r = yield from self.call(ma, (a, b), {}, node, frame)
             if r is not NotImplemented:
@@ -1049,6 +1053,10 @@ class Interp:
             return r
         ma = _type_lookup(a, f"__{name}__") if not isinstance(a, Sym) else None
         mb = _type_lookup(b, f"__{REFLECT[name]}__") if not isinstance(b, Sym) else None
+        if type(a) in _BUILTIN_SCALARS and not isinstance(b, Sym) and type(b) not in _BUILTIN_SCALARS:
+            ma = None  # the builtin slot returns NotImplemented for a foreign object without inspecting it
+        if type(b) in _BUILTIN_SCALARS and not isinstance(a, Sym) and type(a) not in _BUILTIN_SCALARS:
+            mb = None
         if ma is not None and ma is not getattr(object, f"__{name}__"):
             r = yield from self.call(ma, (a, b), {}, node, frame)
             if r is not NotImplemented:
@@ -1314,6 +1322,7 @@ class _Super:
 
 
 _MISSING = object()
+_BUILTIN_SCALARS = (int, bool, str, bytes, float, type(None))
 
 
 def _hashable(x):
